@@ -55,6 +55,9 @@ Inductive uhook :=
 | UkPromoted (f : string)
 | UkCustom.
 
+(* operations of the path-mode file naming, in evaluation order (read from the source by the translator) *)
+Inductive fop := FTrunc | FReplaceSep | FAppendJson.
+
 Record sdesc := mkS { s_name : string; s_fields : list field; s_hook : mhook; s_unhook : uhook; s_mptr : bool }.
 Definition table := list sdesc.
 
